@@ -4,6 +4,11 @@ import json, os, subprocess
 V = os.path.dirname(os.path.abspath(__file__))
 
 CHECKS = {
+ 'C03': dict(cat='model_checking', tech='bounded exhaustive shape enumeration against spec-level reference models; explicit-state search of the bash automaton over byte snapshots of the real state',
+             text='bash-f on all single-bit states, bash hash on every level x every length 0..2r+1, brng CTR/HMAC on IV classes whose counter carries out of every word and wraps all 256 bits with every '
+                  'chunking class, HOTP/TOTP/OCRA over the suite grammar with verify accept/reject, all compared with independent spec-level models; the programmable automaton is searched to depth 2-4 from 54 '
+                  'initial states with data lengths {0,1,r-1,r,r+1,2r}, every transition compared with the model and Decr checked to invert Encr from the same predecessor state.',
+             note='trusted: ref/bash.py, ref/brng.py, ref/botp.py (vector-gated), gcc -O2 build', ref='4/C03'),
  'C01': dict(cat='model_checking', tech='bounded exhaustive shape enumeration of the real belt code against a spec-level reference model; complete finite domain for the FMT block count',
              text='Every belt mechanism on the full cross product of key length/value classes x IV classes (incl. counters that carry out of every word and wrap 2^128) x data classes x EVERY length in the range '
                   'crossing all internal block/threshold boundaries, compared octet-for-octet with an independent specification-level model (gated by the appendix vectors) and inverted; unwrap '
